@@ -12,6 +12,8 @@ import (
 	"hash"
 	"runtime"
 	"sort"
+	"strconv"
+	"sync/atomic"
 	"testing/synctest"
 	"time"
 
@@ -71,7 +73,7 @@ func SiteName(s int) string {
 	case SiteTaskDone:
 		return "TaskDone"
 	}
-	return fmt.Sprintf("site%d", s)
+	return "site" + strconv.Itoa(s)
 }
 
 const (
@@ -79,6 +81,7 @@ const (
 	actPanic   // hook panics with reply.panicVal (fault injection)
 	actUnwind  // hook panics with the private sentinel (teardown)
 	actStop    // task: issue no further ops
+	actReprobe // lock site: probe the lock again and park again
 )
 
 type unwindSentinel struct{}
@@ -98,11 +101,11 @@ type arrival struct {
 	sp     int
 	frames int
 	op     byte
-	name   string // host function name
-	res    *OpResult
+	name   string // host function name (allocated by the controller at script build time)
 	ctxIdx int
 	cancel context.CancelFunc
 	now    time.Duration
+	lockFree bool // lock sites: result of the TryLock probe made by the arriving thread itself
 	reply  chan reply
 }
 
@@ -134,6 +137,9 @@ type thread struct {
 	// host call in progress: behaviour decided at arrival, thread held until wakeAt
 	wakeAt  time.Duration
 	hostRep hostBehaviour
+	lockStamp int // decision at which the current op passed its first lock site
+	lockFree  bool // lock site: last probe result
+	stale     bool // lock site: some lock may have changed hands since the probe
 	// stall
 	stallLeft int
 	stalled   bool
@@ -203,7 +209,7 @@ type Engine struct {
 	Objs   []*tengo.Compiled
 	Scripts []*tengo.Script
 
-	active bool
+	active atomic.Bool
 	arrive chan arrival
 
 	threads  []*thread
@@ -237,18 +243,25 @@ type Engine struct {
 	CallerPriority bool // after cancellation, an enabled un-stalled caller is always chosen
 	maxDecisions   int
 
-	solo soloEnv
+	solo    soloEnv
+	pending []logEntry
+	nViol   int
 	late []lateItem
+	meta map[int]opMeta
+}
+
+type opMeta struct {
+	ret, lockStamp int
+	run            *RunInfo
 }
 
 type lateItem struct {
-	res  *OpResult
-	vars []*tengo.Variable
+	res *OpResult
 }
 
 // cur is the engine of the episode in progress. It is written by the controller
 // goroutine before any simulated thread exists and cleared after all have ended.
-var cur *Engine
+var cur atomic.Pointer[Engine]
 
 func init() { tengo.VerifHook = hook }
 
@@ -266,15 +279,28 @@ func curGID() uint64 {
 }
 
 func hook(site int, c *tengo.Compiled, v *tengo.VM) {
-	e := cur
-	if e == nil || !e.active {
+	e := cur.Load()
+	if e == nil || !e.active.Load() {
 		return
 	}
 	a := arrival{gid: curGID(), site: site, c: c, v: v, task: -1}
 	if site == tengo.VerifVMStep {
 		a.ip, a.sp, a.frames, a.op = v.VerifPeek()
 	}
-	r := e.park(&a)
+	var r reply
+	if site == tengo.VerifLockR || site == tengo.VerifLockW {
+		// The thread probes the lock itself (a real, synchronising TryLock on its
+		// own goroutine); the controller never touches tengo memory.
+		for {
+			a.lockFree = c.VerifTryLock(site == tengo.VerifLockW)
+			r = e.park(&a)
+			if r.action != actReprobe {
+				break
+			}
+		}
+	} else {
+		r = e.park(&a)
+	}
 	switch r.action {
 	case actPanic:
 		panic(r.panicVal)
@@ -303,6 +329,7 @@ func NewEngine(p *plan.Plan) *Engine {
 		byVM:     map[*tengo.VM]*thread{},
 		hash:     sha256.New(),
 		stateSet: map[uint64]struct{}{},
+		meta:     map[int]opMeta{},
 	}
 	e.Stats.Fired = map[string]int{}
 	e.Stats.Probes = map[string]int{}
@@ -318,22 +345,51 @@ func NewEngine(p *plan.Plan) *Engine {
 func (e *Engine) KeepTrace(b bool) { e.keepTrace = b }
 func (e *Engine) Trace() []string  { return e.trace }
 
+// logf records an event. While simulated threads exist the controller must not
+// touch fmt (its sync.Pool would hand the controller objects last used by a
+// thread, with the pool's synchronisation ignored): entries are formatted when
+// flushed, after the final join. Arguments must be ints or controller-owned strings.
 func (e *Engine) logf(format string, args ...interface{}) {
-	s := fmt.Sprintf(format, args...)
-	e.hash.Write([]byte(s))
-	e.hash.Write([]byte{'\n'})
-	if e.keepTrace {
-		e.trace = append(e.trace, s)
+	e.pending = append(e.pending, logEntry{format: format, args: args})
+	if !e.active.Load() {
+		e.flushLog()
 	}
 }
 
+type logEntry struct {
+	format string
+	args   []interface{}
+	viol   string // non-empty: also a violation of this oracle
+}
+
+func (e *Engine) flushLog() {
+	for _, le := range e.pending {
+		s := fmt.Sprintf(le.format, le.args...)
+		if le.viol != "" {
+			e.Violations = append(e.Violations, Violation{Oracle: le.viol, Detail: s})
+			s = "VIOLATION " + le.viol + " " + s
+		}
+		e.hash.Write([]byte(s))
+		e.hash.Write([]byte{'\n'})
+		if e.keepTrace {
+			e.trace = append(e.trace, s)
+		}
+	}
+	e.pending = e.pending[:0]
+}
+
 // Digest of the event log so far.
-func (e *Engine) Digest() string { return hex.EncodeToString(e.hash.Sum(nil))[:32] }
+func (e *Engine) Digest() string {
+	e.flushLog()
+	return hex.EncodeToString(e.hash.Sum(nil))[:32]
+}
 
 func (e *Engine) violate(oracle, format string, args ...interface{}) {
-	v := Violation{Oracle: oracle, Detail: fmt.Sprintf(format, args...)}
-	e.Violations = append(e.Violations, v)
-	e.logf("VIOLATION %s %s", v.Oracle, v.Detail)
+	e.pending = append(e.pending, logEntry{format: format, args: args, viol: oracle})
+	e.nViol++
+	if !e.active.Load() {
+		e.flushLog()
+	}
 }
 
 func (e *Engine) probe(name string) { e.Stats.Probes[name]++ }
@@ -354,15 +410,14 @@ func (e *Engine) RunTasks() {
 	// hooks go live, otherwise a straggler would show up as an unknown thread
 	synctest.Wait()
 	e.arrive = make(chan arrival)
-	cur = e
-	e.active = true
+	cur.Store(e)
+	e.active.Store(true)
 	start := time.Now()
 	g0 := runtime.NumGoroutine()
 	for ti := range p.Tasks {
 		t := &thread{id: len(e.threads), name: fmt.Sprintf("T%d", ti), kind: kTask, task: ti, doneCh: make(chan struct{})}
 		e.threads = append(e.threads, t)
 		e.tasks = append(e.tasks, t)
-		e.Results[ti] = make([]*OpResult, 0, len(p.Tasks[ti]))
 		go e.taskMain(ti, t.doneCh)
 	}
 	raceDisable()
@@ -372,27 +427,29 @@ func (e *Engine) RunTasks() {
 	for _, t := range e.tasks {
 		<-t.doneCh
 	}
-	e.active = false
-	cur = nil
+	e.active.Store(false)
+	cur.Store(nil)
 	synctest.Wait()
+	// the controller now happens-after every thread: take over their results
+	e.flushLog()
+	for ti, rs := range e.Results {
+		for _, r := range rs {
+			if m, ok := e.meta[ti<<20|r.Idx]; ok {
+				r.Return, r.LockStamp, r.Run = m.ret, m.lockStamp, m.run
+			}
+			e.logf("R T%d %d %s", ti, r.Idx, r.summary())
+			if r.late != nil {
+				e.late = append(e.late, lateItem{res: r})
+			}
+		}
+	}
 	e.Stats.SimNs = int64(time.Since(start))
 	if g1 := runtime.NumGoroutine(); g1 != g0 && e.Fatal == "" {
 		e.violate("goroutines", "goroutine count %d before the episode, %d after all calls returned", g0, g1)
 	}
 	// late dereferences, after the join
 	for _, it := range e.late {
-		vars := plan.Vars{}
-		for _, v := range it.vars {
-			vars[v.Name()] = FromGo(v.Value())
-		}
-		if it.res.Kind == plan.OpGet {
-			for _, v := range it.vars {
-				val := FromGo(v.Value())
-				it.res.Val = &val
-			}
-		} else {
-			it.res.Vars = vars
-		}
+		ResolveLate([]*OpResult{it.res})
 	}
 	e.Stats.Decisions = e.decisions
 	e.Stats.SwitchSig = e.switchSig
@@ -409,7 +466,14 @@ func (e *Engine) RunTasks() {
 }
 
 func (e *Engine) taskMain(ti int, done chan struct{}) {
-	defer close(done) // ordinary close: the final happens-before edge to the controller
+	// Results are owned by this goroutine until the final, synchronising close:
+	// the controller never reads memory written by a simulated thread while the
+	// episode runs (it would be an unsynchronised access of the simulator itself).
+	var results []*OpResult
+	defer func() {
+		e.Results[ti] = results
+		close(done) // ordinary close: the happens-before edge of the final join
+	}()
 	gid := curGID()
 	a := arrival{gid: gid, site: SiteTaskStart, task: ti}
 	if r := e.park(&a); r.action != actProceed {
@@ -424,7 +488,8 @@ func (e *Engine) taskMain(ti int, done chan struct{}) {
 		}
 		res := e.execOp(ti, i, &ops[i], gid)
 		res.Invoke = r.stamp
-		a = arrival{gid: gid, site: SiteOpEnd, task: ti, opIdx: i, res: res}
+		results = append(results, res)
+		a = arrival{gid: gid, site: SiteOpEnd, task: ti, opIdx: i}
 		if r := e.park(&a); r.action != actProceed {
 			break
 		}
@@ -450,6 +515,9 @@ func (e *Engine) loop() {
 		if e.firePlanned() {
 			continue
 		}
+		if e.reprobe() {
+			continue
+		}
 		evs := e.enabled()
 		if len(evs) == 0 {
 			if e.allDone() {
@@ -472,6 +540,30 @@ func (e *Engine) loop() {
 	e.teardown()
 }
 
+func (e *Engine) markLocksStale() {
+	for _, t := range e.threads {
+		if !t.done && t.at != nil && (t.at.site == tengo.VerifLockR || t.at.site == tengo.VerifLockW) {
+			t.stale = true
+		}
+	}
+}
+
+// reprobe lets every thread parked at a lock site whose probe may be out of
+// date probe again. Returns true if any did (the loop then waits and drains).
+func (e *Engine) reprobe() bool {
+	did := false
+	for _, t := range e.threads {
+		if !t.done && t.at != nil && t.stale && (t.at.site == tengo.VerifLockR || t.at.site == tengo.VerifLockW) {
+			a := t.at
+			t.at = nil
+			t.stale = false
+			a.reply <- reply{action: actReprobe}
+			did = true
+		}
+	}
+	return did
+}
+
 func (e *Engine) allDone() bool {
 	for _, t := range e.threads {
 		if !t.done {
@@ -490,7 +582,7 @@ func (e *Engine) describeThreads() string {
 		} else if t.at != nil {
 			st = "parked@" + SiteName(t.at.site)
 		}
-		s += fmt.Sprintf("%s=%s ", t.name, st)
+		s += t.name + "=" + st + " "
 	}
 	return s
 }
@@ -648,7 +740,7 @@ func (e *Engine) resolve(a *arrival) *thread {
 		}
 	}
 	// a goroutine the engine did not expect: adopt it so that it is scheduled like any other
-	t := &thread{id: len(e.threads), name: fmt.Sprintf("anon%d", len(e.threads)), kind: kAnon, gid: a.gid, task: -1}
+	t := &thread{id: len(e.threads), name: "anon" + strconv.Itoa(len(e.threads)), kind: kAnon, gid: a.gid, task: -1}
 	e.threads = append(e.threads, t)
 	e.byGid[a.gid] = t
 	e.probe("anonThread")
@@ -657,7 +749,7 @@ func (e *Engine) resolve(a *arrival) *thread {
 
 func (e *Engine) onArrive(t *thread, a *arrival) {
 	if t.at != nil {
-		e.Fatal = fmt.Sprintf("thread %s arrived at %s while parked at %s", t.name, SiteName(a.site), SiteName(t.at.site))
+		e.Fatal = "thread " + t.name + " arrived at " + SiteName(a.site) + " while parked at " + SiteName(t.at.site)
 		return
 	}
 	t.at = a
@@ -667,11 +759,13 @@ func (e *Engine) onArrive(t *thread, a *arrival) {
 	case SiteHostCall:
 		e.logf("A %s HostCall %s", t.name, a.name)
 	case SiteOpEnd:
-		e.logf("A %s OpEnd %d %s", t.name, a.opIdx, a.res.summary())
+		e.logf("A %s OpEnd %d", t.name, a.opIdx)
 	default:
 		e.logf("A %s %s", t.name, SiteName(a.site))
 	}
 	switch a.site {
+	case tengo.VerifLockR, tengo.VerifLockW:
+		t.lockFree, t.stale = a.lockFree, false
 	case SiteOpBegin:
 		t.curOp = a.opIdx
 		op := &e.Plan.Tasks[t.task][a.opIdx]
@@ -710,7 +804,7 @@ func (e *Engine) onArrive(t *thread, a *arrival) {
 	case tengo.VerifRunCtxEnter:
 		if r := t.run; r != nil && a.v != nil {
 			r.vm = a.v
-			vt := &thread{id: len(e.threads), name: fmt.Sprintf("%s.vm%d", t.name, r.RunIdx), kind: kVM, task: t.task, parent: t, run: r}
+			vt := &thread{id: len(e.threads), name: t.name + ".vm" + strconv.Itoa(r.RunIdx), kind: kVM, task: t.task, parent: t, run: r}
 			e.threads = append(e.threads, vt)
 			e.byVM[a.v] = vt
 			r.vmThread = vt
@@ -749,16 +843,14 @@ func (e *Engine) onArrive(t *thread, a *arrival) {
 			t.run.VMPanicked = true
 		}
 	case SiteOpEnd:
+		e.markLocksStale()
+		m := opMeta{ret: e.decisions, lockStamp: t.lockStamp}
 		if r := t.run; r != nil {
 			r.Returned = true
-			a.res.Run = r
+			m.run = r
 			t.run = nil
 		}
-		a.res.Return = e.decisions
-		e.Results[t.task] = append(e.Results[t.task], a.res)
-		if a.res.late != nil {
-			e.late = append(e.late, lateItem{a.res, a.res.late})
-		}
+		e.meta[t.task<<20|a.opIdx] = m
 	case SiteHostCall:
 		r := e.runOf(t)
 		if r != nil {
@@ -869,7 +961,7 @@ func (e *Engine) enabled() []*thread {
 		a := t.at
 		switch a.site {
 		case tengo.VerifLockR, tengo.VerifLockW:
-			if a.c != nil && !a.c.VerifTryLock(a.site == tengo.VerifLockW) {
+			if !t.lockFree {
 				continue
 			}
 		case SiteHostCall:
@@ -999,6 +1091,12 @@ func (e *Engine) release(t *thread) {
 		}
 	case SiteOpBegin:
 		rep.stamp = e.decisions
+		t.lockStamp = 0
+	case tengo.VerifLockR, tengo.VerifLockW:
+		if t.kind == kTask && t.lockStamp == 0 {
+			t.lockStamp = e.decisions
+		}
+		e.markLocksStale()
 	case SiteHostCall:
 		rep.host = t.hostRep
 		t.wakeAt = 0
@@ -1107,12 +1205,12 @@ func (e *Engine) teardown() {
 					a.reply <- reply{action: actProceed}
 				case SiteTaskStart, SiteOpBegin, SiteOpEnd:
 					if a.site == SiteOpEnd {
-						a.res.Return = e.decisions
+						m := opMeta{ret: e.decisions, lockStamp: t.lockStamp}
 						if r := t.run; r != nil {
-							a.res.Run = r
+							m.run = r
 							t.run = nil
 						}
-						e.Results[t.task] = append(e.Results[t.task], a.res)
+						e.meta[t.task<<20|a.opIdx] = m
 					}
 					a.reply <- reply{action: actStop}
 				case tengo.VerifVMGoEnd, tengo.VerifVMGoPanic:
